@@ -22,6 +22,7 @@ fn main() {
     let code = match args[1].as_str() {
         "selftest" => selftest::run(true),
         "--replay" => props::replay(&args[2]),
+        "--probe" => props::probe(&args[2]),
         id => {
             let tier = args.get(2).map(|s| s.as_str()).unwrap_or("quick");
             if tier != "quick" && tier != "thorough" {
